@@ -24,6 +24,9 @@ type KnownFinding struct {
 
 type Ledger struct {
 	Props map[string][]string `json:"properties"`
+	// parameter and local-variable names of every function under contract, as they were when
+	// the ledger was written (see fnvals.go: rename resilience)
+	Names map[string]FnNames `json:"names,omitempty"`
 }
 
 type OblReport struct {
@@ -128,6 +131,12 @@ func cmdCheck(args []string) int {
 		return 2
 	}
 	loadSecs := time.Since(t0).Seconds()
+	if b, err := os.ReadFile(filepath.Join(*verif, "obligations.lock.json")); err == nil {
+		var l0 Ledger
+		if json.Unmarshal(b, &l0) == nil {
+			e.recorded = l0.Names
+		}
+	}
 	var results []*FnResult
 	for _, k := range cs.sortedKeys() {
 		ct := cs.ByKey[k]
@@ -320,6 +329,12 @@ func cmdCheck(args []string) int {
 					skip = true // already reported
 				}
 			}
+			if j := strings.Index(n, "#"); j >= 0 && strings.Contains(n[j:], "@") {
+				// an obligation tied to a code site (a call, a dereference, a back edge): it goes
+				// away when the code at that site does, and its name moves with unrelated edits;
+				// only contract-level obligations (ensures, frames, ownership) must reappear
+				skip = true
+			}
 			if !skip && *only == "" && !*writeLedger {
 				violate(n, "obligation recorded in the ledger was not generated from the current tree", map[string]any{"verdict": "missing"})
 			}
@@ -345,6 +360,14 @@ func cmdCheck(args []string) int {
 			}
 		}
 		ledger.Props[*prop] = names
+		if ledger.Names == nil {
+			ledger.Names = map[string]FnNames{}
+		}
+		for _, r := range results {
+			if r.Unsupported == "" && len(r.Names.Params)+len(r.Names.Locals) > 0 {
+				ledger.Names[r.FullName] = r.Names
+			}
+		}
 		b, _ := json.MarshalIndent(ledger, "", " ")
 		_ = os.WriteFile(filepath.Join(*verif, "obligations.lock.json"), b, 0o644)
 	}
